@@ -274,5 +274,8 @@ func driveC11(o opts) error {
 			Oracle:     oracle,
 		})
 	}
+	if err := c11References(o, w); err != nil {
+		return err
+	}
 	return w.Flush()
 }
